@@ -135,8 +135,22 @@ func c03Run(c c03Case, root string, rec *vh.Recorder) error {
 	procCount := 1
 	at := uint64(0xffffffffffffff9c)
 	ctxCount := 1
+	// killTyped: the op is decided kill by the handler, or is killed by the filter itself
+	killTyped := func(op c03Op) bool {
+		switch op.Kind {
+		case "rename":
+			return c.Decide[op.K] == 2 || (op.K < len(c.Src) && c.Src[op.K] == 2)
+		case "mkdir", "create", "unlink", "stat", "readlink":
+			return c.Decide[op.K] == 2
+		case "other":
+			return c.Default == "kill" || c.Other[op.Name] == 2
+		}
+		return false
+	}
+	threadKillAt := -1 // flat index of a kill-type op in a thread started from main's straight line, while main waits for it
 	var emit func(ops []c03Op, proc int, thread bool, path []int, ctx int) error
 	emit = func(ops []c03Op, proc int, thread bool, path []int, ctx int) error {
+		longSleep := false
 		for _, op := range ops {
 			f := c03Flat{op: op, proc: proc, thread: thread, path: append([]int{}, path...), ctx: ctx}
 			m := fmt.Sprintf("m%d", op.K)
@@ -185,7 +199,13 @@ func c03Run(c c03Case, root string, rec *vh.Recorder) error {
 			case "wait":
 				f.idx = s.Add("wait")
 			case "sleep":
-				f.idx = s.Add("sleep:15")
+				if longSleep {
+					// main stays around until its thread has made the call that must end the whole run
+					f.idx = s.Add("sleep:3000")
+					longSleep = false
+				} else {
+					f.idx = s.Add("sleep:15")
+				}
 			case "fork", "vfork", "thread":
 				f.idx = s.Add(op.Kind + "{")
 				bp := proc
@@ -202,6 +222,18 @@ func c03Run(c c03Case, root string, rec *vh.Recorder) error {
 					return err
 				}
 				s.Add("}")
+				if op.Kind == "thread" && proc == 0 && !thread && len(path) == 0 && threadKillAt < 0 {
+					for bi, b := range op.Body {
+						if b.Kind == "fork" || b.Kind == "vfork" || b.Kind == "thread" || b.Kind == "wait" {
+							break // only the straight beginning of the thread body is certain to be reached
+						}
+						if killTyped(b) {
+							longSleep = true
+							threadKillAt = me + 1 + bi
+							break
+						}
+					}
+				}
 				continue
 			}
 			flat = append(flat, f)
@@ -439,6 +471,10 @@ func c03Run(c c03Case, root string, rec *vh.Recorder) error {
 			break
 		}
 	}
+	if mainKill < 0 && threadKillAt >= 0 {
+		// a thread of the main process makes a kill-type call while main sleeps: "for every process and thread"
+		mainKill = threadKillAt
+	}
 	if mainKill >= 0 {
 		certain++
 	}
@@ -478,6 +514,9 @@ func c03Run(c c03Case, root string, rec *vh.Recorder) error {
 	}
 	if mainKill >= 0 {
 		classes = append(classes, "kill-on-main-path")
+	}
+	if threadKillAt >= 0 && mainKill == threadKillAt {
+		classes = append(classes, "kill-in-thread-of-main(certain)")
 	}
 	for _, f := range flat {
 		if f.op.Kind == "thread" || f.op.Kind == "vfork" || f.op.Kind == "fork" {
